@@ -148,3 +148,14 @@ Proof.
   revert k i. induction l as [|x l IH]; intros [|k] [|i]; simpl; try discriminate; auto.
   apply IH.
 Qed.
+Lemma firstn_In' {A} (l : list A) k x : In x (firstn k l) -> In x l.
+Proof.
+  revert k. induction l as [|y l IH]; intros [|k]; simpl; try tauto.
+  intros [H | H]; [left; exact H | right; eapply IH; exact H].
+Qed.
+Lemma ListNoDup_app_l {A} (a b : list A) : List.NoDup (a ++ b) -> List.NoDup a.
+Proof.
+  induction a as [|x a IH]; simpl; intros H; [constructor|].
+  inversion H as [|x' l Hx Hnd]; subst. constructor; [|apply IH, Hnd].
+  intros Hin. apply Hx. apply in_or_app. left; exact Hin.
+Qed.
